@@ -871,6 +871,28 @@ def setitem(a, index, value):
         rshape = view.shape
         view._write(lambda idx: z3.BoolVal(True), lambda idx: vs(_bcast_idx(list(idx), rshape, vshape)))
         return
+    if len(adv) == 2 and a.ndim == 2 and len(idx_list) == 2:
+        # a[rows, cols] = v with two 1-d index arrays of equal length m, rows == arange(start, start + m) (step 1): the pairs are distinct,
+        # element (r, c) is written iff 0 <= r - start < m and cols[r - start] == c
+        rws, cls = idx_list
+        ar = getattr(rws, "arange_of", None) if isinstance(rws, SArr) else None
+        if ar is None or ar[1] != 1 or rws.ndim != 1:
+            raise Unsupported("assignment with two advanced indices (rows is not an arange with step 1)")
+        cia = _int_index_array(cls, a.shape[1], "column index array")
+        if cia.ndim != 1:
+            raise Unsupported("assignment with two advanced indices (n-d column index array)")
+        m = T(rws.shape[0])
+        oblige("index.shape_mismatch", T(cia.shape[0]) == m, "shape mismatch: indexing arrays could not be broadcast together")
+        st0 = ar[0]
+        oblige("index.in_bounds", z3.Implies(m > 0, z3.And(st0 >= 0, st0 + m <= T(a.shape[0]))), "row index array")
+        v = as_sarr(value)
+        _check_assign_shape(v.shape, (rws.shape[0],))
+        vs = cast_fn(v.dtype, a.dtype, v.snapshot())
+        vshape = v.shape
+        cs_ = cia.snapshot()
+        a._write(lambda idx: z3.And(idx[0] - st0 >= 0, idx[0] - st0 < m, cs_((idx[0] - st0,)) == idx[1]),
+                 lambda idx: vs(_bcast_idx([idx[0] - st0], (rws.shape[0],), vshape)))
+        return
     if len(adv) > 1:
         raise Unsupported("assignment with several advanced indices")
     k = adv[0]
@@ -1140,7 +1162,9 @@ def arange(start, stop=None, step=1, dtype=None):
     else:
         ln = z3.If(sp < st, (st - sp - stepc - 1) / (-stepc), z3.IntVal(0))
     dt = np.dtype(dtype) if dtype is not None else np.dtype("int64")
-    return SArr(dt, (dim(ln),), lambda idx: cast_term("int64", dt, simp(st + idx[0] * stepc)))
+    out = SArr(dt, (dim(ln),), lambda idx: cast_term("int64", dt, simp(st + idx[0] * stepc)))
+    out.arange_of = (st, stepc)
+    return out
 
 
 def transpose(a, axes=None):
